@@ -841,6 +841,14 @@ func brokerLossless(p *engine.Program) (bool, string) {
 	if w := walk(start); w != "" {
 		return false, w
 	}
+	// private helpers of start (e.g. an extracted delivery function)
+	for _, ci := range engine.CallsIn(start) {
+		if c := ci.Common().StaticCallee(); c != nil && inPkg(c, "utils") && len(c.Blocks) > 0 && privateHelperOf(p, c, map[string]bool{"(*utils.Broker).start": true}) != "" {
+			if w := walk(c); w != "" {
+				return false, w
+			}
+		}
+	}
 	if nSend == 0 {
 		return false, "no delivery send found in Broker.start"
 	}
